@@ -52,7 +52,18 @@ func NewFSM(opts FSMOpts) raft.FSM {
 }
 
 // Apply Implements raft.FSM interface
-func (fsm *FSM) Apply(log *raft.Log) interface{} {
+func (fsm *FSM) Apply(log *raft.Log) (result interface{}) {
+	// A panic while applying an entry must not take the node down - every replica applies the
+	// same entry, so it would take the whole cluster down. Report it as the entry's error.
+	defer func() {
+		if r := recover(); r != nil {
+			result = internal.ApplyResponse{
+				Error:    fmt.Errorf("internal error: %v", r),
+				Response: nil,
+			}
+		}
+	}()
+
 	switch log.Type {
 	default:
 		// No-Op
